@@ -220,3 +220,58 @@ func VerifC19_SharedLabelCounters() {
 		sym.Reach("different-labels")
 	}
 }
+
+// VerifC19_SharedLabelProcessCounters: the pipeline-level counter set: three
+// registrants of labelled counters (three transforms of one pipeline, e.g. two
+// parseTime steps sharing `timeError` and a redaction step) whose labels are
+// chosen symbolically from two names - equal labels in any position -, each
+// counting a symbolic number of records for the selected metric key set: no
+// registrant panics, and after UpdateMetrics every label holds exactly what
+// its registrants counted.
+//
+//verif:reach shared distinct
+func VerifC19_SharedLabelProcessCounters() {
+	labels := []string{"timeError", "redacted"}
+	m := fakes.NewMetrics()
+	pc := verifNewProcessCounter(m)
+	var regs [3]func(int)
+	var regLabel [3]string
+	for i := range regs {
+		regLabel[i] = labels[sym.Choice("label", 2)]
+		regs[i] = pc.RegisterCustomCounter(regLabel[i])
+	}
+	rec := verifKeySchema.NewTestRecord1(LogFields{"h", "a", "m"})
+	rec.RawLength = 10
+	pc.SelectMetricKeySet(rec)
+	want := map[string][2]uint64{}
+	for i := range regs {
+		n := sym.Choice("records", 3)
+		for j := 0; j < n; j++ {
+			length := sym.IntRange("length", 0, 1000)
+			regs[i](length) // obligation: no panic, whichever registrant shares its label with an earlier one
+			w := want[regLabel[i]]
+			want[regLabel[i]] = [2]uint64{w[0] + 1, w[1] + uint64(length)}
+		}
+	}
+	pc.UpdateMetrics()
+	for _, l := range labels {
+		vec, registered := pc.customCounterVecMap[l]
+		if !registered {
+			continue // nobody registered this label: nothing was counted under it
+		}
+		sym.Assert(vec.countMetricVec.WithLabelValues("h", "a").Get() == want[l][0], "labelled record count = records counted under that label by every registrant of the pipeline")
+		sym.Assert(vec.lengthMetricVec.WithLabelValues("h", "a").Get() == want[l][1], "labelled byte count = bytes counted under that label by every registrant of the pipeline")
+	}
+	if regLabel[0] == regLabel[1] || regLabel[1] == regLabel[2] || regLabel[0] == regLabel[2] {
+		sym.Reach("shared")
+	}
+	if regLabel[0] != regLabel[1] || regLabel[1] != regLabel[2] {
+		sym.Reach("distinct")
+	}
+}
+
+// VerifC13_SharedErrorLabelIsCounted: the same run read for C13: two parseTime steps may share one error label; every
+// malformed timestamp either of them meets is counted under it.
+//
+//verif:reach shared distinct
+func VerifC13_SharedErrorLabelIsCounted() { VerifC19_SharedLabelProcessCounters() }
